@@ -28,6 +28,7 @@ type JobCfg struct {
 	SolverTimeoutMs int               `json:"solver_timeout_ms"`
 	Solver          string            `json:"solver"`
 	Params          map[string]int    `json:"params"`
+	SymAlloc        bool              `json:"sym_alloc"` // mallocgc with a symbolic size keeps it symbolic
 }
 
 func (c *JobCfg) defaults() {
